@@ -16,13 +16,13 @@ PID = "C18"
 P = "OQuPyVerif.Props.C18."
 THEOREMS = [P + t for t in (
     "superop_wiring", "key_dispatch",
-    "acts_once_at_step", "seen_unfold", "side_of_measurement", "recorded_word",
+    "acts_once_at_step", "zero_steps", "seen_unfold", "side_of_measurement", "recorded_word",
     "mixed_keys", "each_call_once", "landing_times_ascending", "mixed_keys_not_insertion_order",
     "stack_order_partial", "chain_stack_order", "chain_add_side",
     "float_time_step", "float_time_nearest_step", "float_time_selects_nearest",
     "float_time_tie_even",
     "identity_neutral", "identity_changes_nothing",
-    "chain_same_rules", "chain_controls_per_site", "chain_identity_neutral",
+    "chain_same_rules", "chain_controls_per_site", "chain_identity_neutral", "controls_added_after_construction_act",
 )]
 
 KEY_MIXED = "Control mixed int+float stack at one step"
@@ -284,8 +284,8 @@ def correspondence(res, tier, rng):
         d = 2 if rng.random() < 0.85 else 3
         cplx = rng.random() < 0.25
         dt, start = rng.choice(DTS), rng.choice(STARTS)
-        nst = rng.randrange(1, 5)
-        rec = rng.random() < 0.8
+        nst = rng.randrange(0, 5) if i % 5 else 0      # num_steps = 0: first step = last step
+        rec = rng.random() < 0.7
         calls = gen_calls(rng, d, nst, dt, start, cplx=cplx)
         if i % 7 == 0:       # make sure first and last step carry both sides
             for stp in (0, nst):
@@ -294,7 +294,7 @@ def correspondence(res, tier, rng):
                     calls.append((post, "i", stp, a, ok))
         rho = rand_state(rng, d, cplx)
         sysm = oqupy.System(np.zeros((d, d)))
-        use_pt = i % 3 == 0
+        use_pt = i % 3 == 0 and nst > 0
         with quiet():
             dyn = oqupy.compute_dynamics(
                 system=sysm, initial_state=rho.copy(), dt=dt, num_steps=nst, start_time=start,
@@ -320,14 +320,17 @@ def correspondence(res, tier, rng):
     for i in range(n_env):
         d = 2
         dt, start = rng.choice(DTS), rng.choice(STARTS)
-        nst = rng.randrange(1, 4)
+        nst = rng.randrange(0, 4)
         calls = gen_calls(rng, d, nst, dt, start, cplx=True)
         rho = rand_state(rng, d, True)
         sysm = oqupy.System(rand_herm(rng, d))
         props = sysm.get_propagators(dt, start, SUBDIV_LIMIT, INTEGRATE_EPSREL)
         es = [rand_superop(rng, d, "nontp", False, gentle=True)[0].real for _ in range(nst)]
-        pt = oq.simple_pt([e.T.reshape(1, 1, d * d, d * d) for e in es], d, dt)
-        caps = [pt.get_cap_tensor(k) for k in range(nst + 1)]
+        if nst > 0:
+            pt = oq.simple_pt([e.T.reshape(1, 1, d * d, d * d) for e in es], d, dt)
+            caps = [pt.get_cap_tensor(k) for k in range(nst + 1)]
+        else:
+            pt, caps = None, [np.array([1.0 + 0j])]
         assert all(c.shape == (1,) and c.imag[0] == 0 for c in caps)
         with quiet():
             dyn = oqupy.compute_dynamics(
@@ -398,6 +401,15 @@ def correspondence(res, tier, rng):
         res.count("tebd:hamiltonian=%s" % case["with_h"])
         add(tebd_line(case), _chk_tebd(case, obs), "tebd")
 
+    # (g) object lifetime: construct; add; compute; add; compute ... --------------------------------
+    n_th = 12 if q else 100
+    for i in range(n_th):
+        case = gen_history_case(rng, with_h=(i % 3 == 2))
+        obs = run_pttebd_history(case)
+        res.count("tebdh:mode=%s" % case["mode"])
+        res.count("tebdh:late_adds=%d" % sum(1 for o in case["ops"] if o["kind"] == "add"))
+        add(tebdh_line(case), _chk_tebd(case, obs), "tebdh")
+
     out = fw.run_driver(PID, lines)
     if len(out) != len(lines):
         raise fw.Infra("driver returned %d lines for %d inputs" % (len(out), len(lines)))
@@ -455,7 +467,23 @@ def gen_chain_case(rng, with_h, stacks=None):
 
 
 def run_pttebd(case):
-    """the real PtTebd: recorded single-site states and the joint state, per recorded step"""
+    """the real PtTebd: recorded single-site states and the joint state, per recorded step.
+    case["mode"]: "before" (controls registered before construction, default), or a late mode in
+    which the PtTebd object is built first: "object" (empty ChainControl handed over, filled
+    afterwards), "property" (chain_control=None, filled through tebd.chain_control), "setter"."""
+    mode = case.get("mode", "before")
+    end = case["start_step"] + case["nsteps"]
+    if mode == "before":
+        h = dict(case, regs0=case["regs"], ops=[{"kind": "compute", "end": end}], mode="object")
+    else:
+        h = dict(case, regs0=[], mode=mode,
+                 ops=[dict(r, kind="add") for r in case["regs"]] + [{"kind": "compute", "end": end}])
+    return run_pttebd_history(h)
+
+
+def run_pttebd_history(case):
+    """construct the PtTebd (chain control holding regs0), then the history case["ops"] of
+    {"kind": "add", post, site, step, op} / {"kind": "compute", end}"""
     import oqupy
     dims = case["dims"]
     n = len(dims)
@@ -464,20 +492,80 @@ def run_pttebd(case):
         hm = unjmat(h)
         if np.any(hm != 0):
             chain.add_site_hamiltonian(i, hm)
-    cc = oqupy.ChainControl(dims)
-    for r in case["regs"]:
+
+    def reg(cc, r):
         cc.add_single_site_control(unjmat(r["op"]), int(r["site"]), int(r["step"]), post=bool(r["post"]))
+    mode = case["mode"]
+    cc = oqupy.ChainControl(dims)
+    for r in case["regs0"]:
+        reg(cc, r)
     mps = oqupy.AugmentedMPS([unjmat(s) for s in case["states"]])
     par = oqupy.PtTebdParameters(dt=case["dt"], order=2, epsrel=1e-13)
     sites = list(range(n)) + [tuple(range(n))]
-    t = oqupy.PtTebd(mps, chain, [None] * n, par, chain_control=cc, start_time=0.0,
+    t = oqupy.PtTebd(mps, chain, [None] * n, par,
+                     chain_control=cc if mode == "object" else None, start_time=0.0,
                      start_step=int(case["start_step"]), dynamics_sites=sites)
-    r = t.compute(case["start_step"] + case["nsteps"], progress_type="silent")
+    if mode == "setter":
+        t.chain_control = cc
+    elif mode == "property":
+        assert not case["regs0"]
+    r = None
+    for o in case["ops"]:
+        if o["kind"] == "add":
+            reg(t.chain_control if mode == "property" else cc, o)
+        else:
+            r = t.compute(int(o["end"]), progress_type="silent")
     out = []
-    for k in range(case["nsteps"] + 1):
+    if r is None:
+        return out
+    for k in range(len(r["dynamics"][0].states)):
         out.append({"single": [np.array(r["dynamics"][i].states[k]) for i in range(n)],
                     "joint": np.array(r["dynamics"][tuple(range(n))].states[k])})
     return out
+
+
+def gen_history_case(rng, with_h):
+    base = gen_chain_case(rng, with_h)
+    dims, s0 = base["dims"], base["start_step"]
+    mode = rng.choice(["object", "object", "property", "setter"])
+    regs = base["regs"]
+    k0 = 0 if mode == "property" or rng.random() < 0.5 else rng.randrange(0, len(regs) + 1)
+    regs0, late = regs[:k0], regs[k0:]
+    total = base["nsteps"] + rng.randrange(0, 2)
+    ops = [dict(r, kind="add") for r in late]
+    ops.append({"kind": "compute", "end": s0 + rng.randrange(0, total + 1)})
+    # further controls between two compute calls (for past, current and future steps)
+    for _ in range(rng.randrange(0, 4)):
+        site = rng.randrange(len(dims))
+        a, _ok = rand_superop(rng, dims[site], rng.choice(["kick", "nontp", "channel"]), False, gentle=True)
+        ops.append({"kind": "add", "post": rng.random() < 0.5, "site": site,
+                    "step": s0 + rng.randrange(0, total + 1), "op": jmat(a)})
+    ops.append({"kind": "compute", "end": s0 + total})
+    return dict(base, mode=mode, regs0=regs0, ops=ops, nsteps=total)
+
+
+def tebdh_line(case):
+    cplx = case["with_h"]
+    dims = case["dims"]
+    mult = 2 if cplx else 1
+
+    def regtoks(r):
+        return ["1" if r["post"] else "0", str(r["site"]), str(r["step"]), toks_mat(unjmat(r["op"]), cplx)]
+    toks = ["tebdh", str(len(dims)), str(case["start_step"])]
+    toks += [str(d * d * mult) for d in dims]
+    toks += [toks_vec(unjmat(s).reshape(-1), cplx) for s in case["states"]]
+    toks.append(str(len(case["regs0"])))
+    for r in case["regs0"]:
+        toks += regtoks(r)
+    if cplx:
+        toks.append("1")
+        toks += [toks_mat(p, True) for p in site_half_props(case)]
+    else:
+        toks.append("0")
+    toks.append(str(len(case["ops"])))
+    for o in case["ops"]:
+        toks += (["a"] + regtoks(o)) if o["kind"] == "add" else ["c", str(o["end"])]
+    return " ".join(toks)
 
 
 def site_half_props(case):
@@ -565,35 +653,51 @@ def oracle_single(case):
     h = unjmat(case["ham"])
     rho = unjmat(case["state"])
     calls = [(c["post"], c["kind"], c["key"], unjmat(c["op"]), "") for c in case["calls"]]
+    rec = bool(case.get("record_all", True))
     with quiet():
         dyn = oqupy.compute_dynamics(system=oqupy.System(h), initial_state=rho.copy(), dt=dt,
                                      num_steps=n, start_time=start, control=make_control(d, calls),
-                                     record_all=True, progress_type="silent")
+                                     record_all=rec, progress_type="silent")
     lv = -1j * (np.kron(h, np.eye(d)) - np.kron(np.eye(d), h.T))
     u = expm(lv * dt)
     land = []
-    for (post, kind, key, a, _x) in calls:
+    for idx, (post, kind, key, a, _x) in enumerate(calls):
         k = int(key) if kind == "i" else nearest_step(float(key), start, dt)
         if k is None:
             return True, "tie: not judged"
-        land.append((post, k, a))
+        land.append((post, k, a, kind, float(key), idx))
+
+    def acting(post, k):
+        """controls of one step and side: insertion order; controls given by (different) float
+        times act chronologically (a control acts at its stated time)"""
+        l = [x for x in land if x[0] == post and x[1] == k]
+        if l and all(x[3] == "f" for x in l):
+            l = sorted(l, key=lambda x: (x[4], x[5]))
+        return [x[2] for x in l]
     v = rho.reshape(-1).astype(complex)
     want = []
     for k in range(n + 1):
-        for (post, kk, a) in land:
-            if not post and kk == k:
-                v = a @ v
+        for a in acting(False, k):
+            v = a @ v
         want.append(v.copy())
-        for (post, kk, a) in land:
-            if post and kk == k:
-                v = a @ v
+        if k == n:
+            break
+        for a in acting(True, k):
+            v = a @ v
         v = u @ v
+    if not rec:
+        if len(dyn.states) != 1:
+            return False, "record_all=False returned %d states" % len(dyn.states)
+        if not close(np.array(dyn.states[0]).reshape(-1), want[n], 1e-8):
+            return False, ("final state (record_all=False, t=%g) differs from the evolution with all pre "
+                           "and post controls applied" % (start + n * dt))
+        return True, "ok"
     if len(dyn.states) != n + 1:
         return False, "number of recorded states %d, expected %d" % (len(dyn.states), n + 1)
     for k in range(n + 1):
         if not close(np.array(dyn.states[k]).reshape(-1), want[k], 1e-8):
             return False, ("recorded state %d (t=%g) differs from the evolution with the controls "
-                           "applied in insertion order" % (k, start + k * dt))
+                           "applied at their step, side and in order" % (k, start + k * dt))
     return True, "ok"
 
 
@@ -679,6 +783,28 @@ def search(res, rng=None):
                 if not run("Control int key: step and side of measurement",
                            single_case(rng, 2, n, 0.1, 0.0, [(post, "i", stp, op(), "")])):
                     break
+    # -- first step = last step: num_steps = 0 ---------------------------------------------------
+    for (kind, key) in (("i", 0), ("f", 0.0), ("f", 0.02)):
+        for m in (1, 3):
+            for rec in (True, False):
+                c0 = single_case(rng, 2, 0, 0.1, 0.0, [(False, kind, key, op(), "") for _ in range(m)])
+                run("Control pre-measurement control at num_steps=0", dict(c0, record_all=rec))
+    # -- only the final state is asked for: post controls still act --------------------------------
+    for n in (1, 3):
+        for (kind, key) in (("i", 0), ("i", n - 1), ("f", 0.1 * (n - 1) + 0.02)):
+            calls = [(True, kind, key, op(), ""), (False, "i", n, op(), "")]
+            run("Control post-measurement control with record_all=False",
+                dict(single_case(rng, 2, n, 0.1, 0.0, calls), record_all=False))
+    # -- different float times landing on one step act chronologically, whatever the insertion order
+    for post in (False, True):
+        for (t1, t2) in ((0.32, 0.29), (0.29, 0.32), (0.34, 0.27)):
+            for rec in (True,):
+                calls = [(post, "f", t1, op(), ""), (post, "f", t2, op(), "")]
+                run("Control float times landing on one step act in ascending time",
+                    dict(single_case(rng, 2, 4, 0.1, 0.0, calls), record_all=rec))
+        calls = [(post, "f", 0.72, op(), ""), (post, "f", 0.68, op(), ""), (post, "f", 0.7, op(), "")]
+        run("Control float times landing on one step act in ascending time",
+            single_case(rng, 2, 3, 0.25, 0.0, calls))
     # -- stacks with one and the same key -----------------------------------------------------
     for m in (2, 3):
         for post in (False, True):
@@ -717,6 +843,22 @@ def search(res, rng=None):
             regs = [{"post": post, "site": 0, "step": 1, "op": jmat(op())} for _ in range(m)]
             run(KEY_CHAIN_ORDER, {"api": "ChainControl.get_single_site_controls", "dims": [2, 2],
                                   "regs": regs, "step": 1, "post": post})
+    # -- object lifetime: controls registered after the PtTebd object was built -------------------
+    for mode in ("object", "property", "setter", "object", "property"):
+        for _ in range(2):
+            case = gen_chain_case(rng, with_h=False, stacks=1)
+            # one control per (site, step, side): the order question cannot interfere
+            seen_tags, regs = set(), []
+            for r in case["regs"]:
+                tag = (r["post"], r["site"], r["step"])
+                if tag not in seen_tags:
+                    seen_tags.add(tag)
+                    regs.append(r)
+            # make sure something observable is registered: a pre control on the first step
+            regs.append({"post": False, "site": 0, "step": case["start_step"] + 1,
+                         "op": jmat(op(d=case["dims"][0]))}
+                        if (False, 0, case["start_step"] + 1) not in seen_tags else regs[0])
+            run("PtTebd controls added after construction (%s)" % mode, dict(case, regs=regs, mode=mode))
     for i in range(14):
         case = gen_chain_case(rng, with_h=bool(i % 2), stacks=1 if i < 8 else None)
         multi = {}
@@ -783,9 +925,8 @@ def run(tier, seed, replay):
         "keys of add_single are Python int or float (numpy integers raise TypeError in the code)",
     ]
     res.not_shown = [
-        "order of two DIFFERENT float times that round to the same step: the code applies them in "
-        "ascending time (theorem mixed_keys characterises it); the property text does not fix it, so "
-        "it is neither demanded nor flagged",
+        "a MIX of several float times and an int key on one step and side has no order fixed by the "
+        "property text beyond the known finding; only (one int + one float) is judged",
         "int-keyed and float-keyed controls landing on one step/side are not applied in insertion "
         "order (pre: float first, post: int first) - excluded from stack_order_partial; "
         "search() reports it under key '%s'" % KEY_MIXED,
@@ -793,8 +934,9 @@ def run(tier, seed, replay):
         "their loops are not modelled here",
         "Control.get_controls prints the selected pre time stamps to stdout (debug print) - harmless "
         "for the property, not judged",
-        "a PtTebd restarted at a step that carries a pre-control (C14) is outside this model: "
-        "tebdRun describes a fresh object",
+        "a PtTebd restarted from an exported MPS at a step that carries a pre-control (C14) is outside "
+        "this model: tebdHistory describes one object from construction on (controls added before / "
+        "after construction and between compute calls)",
     ]
     res.trusted.append("scipy.linalg.expm / System.get_propagators values are shipped to the model as "
                        "data (the model does not recompute propagators)")
